@@ -3,7 +3,7 @@
    message codecs; transcript = the exact bytes given to update_hash.  Every statement is for all
    configurations, all message sequences and all oracle behaviours satisfying the stated premises. *)
 From AQ Require Import lib.Base gen.TlsDispatch model.TlsSymbolic.
-From AQ Require Import gen.TlsTranscript proofs.TlsSymbolicP1 proofs.TlsSymbolicP2 proofs.TlsSymbolicP3 proofs.TlsSymbolicPGen.
+From AQ Require Import gen.TlsTranscript proofs.TlsSymbolicP1 proofs.TlsSymbolicP2 proofs.TlsSymbolicP4 proofs.TlsSymbolicP3 proofs.TlsSymbolicPGen.
 
 (* every message sequence, every oracle behaviour (no cryptographic premise needed): a client that reaches
    CLIENT_POST_HANDSHAKE verified a CertificateVerify (advertised algorithm) under the leaf of the certificate
@@ -63,6 +63,31 @@ Theorem transcript_agreement_partial :
     k_tr (the_ks s0) = k_tr kC /\ k_alg (the_ks s0) = k_alg kC /\ t_dec s0 = eC).
 Proof. exact (fun O H => conj (transcript_agreement_client_x O H) (transcript_agreement_server_x O H)). Qed.
 Print Assumptions transcript_agreement_partial.
+
+(* run level, client side (still PARTIAL: cipher SUITE beyond the hash algorithm, ALPN, resumption flag and early-data
+   flag are not derived here): an honest server processed SOME ClientHello and emitted its flight.  Then for EVERY client
+   configuration and EVERY message sequence that leaves the client awaiting the server Finished: if the client accepts
+   the Finished of that flight, it has the server's transcript, hash algorithm and "s hs traffic" secret, and the two
+   application traffic secrets it releases are exactly the one the server released for its own sending direction
+   and the one the server stored (_next_dec_key) to install when the client's Finished arrives.  server_after
+   describes the server's key callbacks: (ENCRYPT, HANDSHAKE, eS), (DECRYPT, HANDSHAKE, cS), (ENCRYPT, ONE_RTT, s ap). *)
+Theorem transcript_agreement_run_partial :
+  forall O, ideal_crypto O ->
+  forall sc ss chm ss' outS,
+  server_handle_hello O sc ss chm = (OOk, ss', outS) ->
+  exists finm kF eS cS keys0,
+    In (EP_HANDSHAKE, finm) outS /\ server_after O ss' keys0 kF eS cS finm /\
+    forall cc ms cs' outC,
+      let cs := run O cc (client_started O cc) ms in
+      t_state cs = CLIENT_EXPECT_FINISHED ->
+      client_handle_finished O cc cs finm = (OOk, cs', outC) ->
+      k_tr (the_ks cs) = k_tr kF /\ k_alg (the_ks cs) = k_alg kF /\ t_dec cs = eS /\
+      exists a b,
+        t_keys cs' = t_keys cs ++
+          [(DIR_DECRYPT, EP_ONE_RTT, a, ks_derive O (ks_extract O (ks_update kF finm) None) L_s_ap_traffic);
+           (DIR_ENCRYPT, EP_ONE_RTT, b, ks_derive O (ks_extract O (ks_update kF finm) None) L_c_ap_traffic)].
+Proof. exact transcript_agreement_run_x. Qed.
+Print Assumptions transcript_agreement_run_partial.
 
 (* PARTIAL (per step): if ONE handshake message of the receiver's transcript differs from what the honest sender
    hashed (both framed, any position, any other content), the sender's Finished is refused: the client does not
